@@ -262,7 +262,19 @@ def main(tier, replay=None):
         if len(res.samples) < 4 and o["events"] > 0:
             res.add_sample({k: o[k] for k in ("name", "kind", "diagnostics", "events", "cursors", "cursor_hits", "entities_queried", "reference_positions", "inside_cursors")})
         v = o["violations"]
-        if v["clause1"] + v["clause2"] + v["clause3"] > 0:
+        if o.get("fresh_comparison"):
+            fc = stats.setdefault("fresh_comparisons", {})
+            fc[o["fresh_comparison"]] = fc.get(o["fresh_comparison"], 0) + 1
+        if "+history" in o["kind"]:
+            stats["history_states"] = stats.get("history_states", 0) + 1
+        if o.get("fresh_difference"):
+            nviol += 1
+            if nviol <= 8:
+                res.violation("project %s (%s): after the edit history (update_source + analyse) the cursor / reference queries differ from a freshly "
+                              "loaded project with the same texts and no duplicate design units: %s" % (o["name"], o["kind"], o["fresh_difference"][:500]),
+                              {"kind": "input", "project": proj_by_idx[o["idx"]], "difference": o["fresh_difference"],
+                               "replay_cmd": "./check C08 --replay <this file>"})
+        if sum(v.values()) > 0:
             unknown = []
             kf = None
             for s in o["violation_samples"]:
@@ -272,7 +284,7 @@ def main(tier, replay=None):
                 else:
                     unknown.append(s)
             # all violations beyond the homonym-copy ones must be reported even if the samples list is short
-            n_unknown = v["clause1"] + v["clause3"] + v["clause2"] - (o.get("clause2_homonym_copies", 0) if kf else 0)
+            n_unknown = sum(v.values()) - (o.get("clause2_homonym_copies", 0) if kf else 0)
             if kf:
                 k, s = kf
                 known_projects.add(o["idx"])
@@ -287,7 +299,7 @@ def main(tier, replay=None):
                     s = unknown[0] if unknown else o["violation_samples"][0]
                     res.violation("clause %d violated by the implementation in project %s (%s): %s [file %s, position %s, %s]" % (
                         s["clause"], o["name"], o["kind"], s["text"], s["file"], s["pos"],
-                        ", ".join("%s=%s" % (a, s[a]) for a in ("cursor", "entity", "cursor_resolves_to", "declaration", "identifier", "text_under_position", "file_libraries") if a in s)),
+                        ", ".join("%s=%s" % (a, s[a]) for a in ("cursor", "position_file", "entity", "cursor_resolves_to", "declaration", "identifier", "text_under_position", "file_libraries") if a in s)),
                         {"kind": "input", "project": proj_by_idx[o["idx"]], "violations": o["violations"], "samples": unknown or o["violation_samples"],
                          "replay_cmd": "./check C08 --replay <this file>"})
     # ---- correspondence: model vs implementation ----
@@ -374,6 +386,12 @@ def main(tier, replay=None):
         "configuration instantiation, block, for/if generate, process, configuration, context; 1-2 libraries, 1-5 files, random "
         "letter case, extended identifiers, Latin-1 and supplementary-plane comments) and 1-3 text mutations of each (token "
         "deletion/insertion/swap, truncation, unknown/other identifier, renamed declaration site, duplicated/deleted line). "
+        "duplicate-unit projects: entity+architecture+package+body in counter.vhd, a whole or partial copy with another layout in "
+        "backup_counter.vhd (same library = duplicate design units, or another library), a user file, and an edit history of 2-5 "
+        "steps (shift lines/columns, empty, restore either file) applied with Source::change + update_source + analyse; every state is "
+        "evaluated like a project, states without duplicate units are also compared with a freshly loaded project. "
+        "Oracle clauses: 0 = the position answered for (file, cursor) is in that file and contains the cursor; 1-3 = the property; "
+        "4 = find_all_references returns no position twice. "
         "Per project: every cursor (line, character 0..len+1) of every own file (sampled above 14000), every cursor strictly "
         "inside every returned reference position; every entity mentioned by an event. non-trivial = project with events and "
         "reference positions; distinct by hash of the project text")
